@@ -60,6 +60,24 @@ func runC28(p *Prog, r *Result) {
 	}
 	r.Rule("R28n", "pattern.Regexp never writes the lexer's end-of-pattern sentinel into the regular expression that expand and interp hand to regexp.MustCompile", 6)
 	checkPatternSentinelWrites(p, r, "R28n")
+	r.Rule("R28o", "every call through a Runner handler field passes a context built by Runner.handlerCtx (HandlerCtx panics on any other)", 6)
+	if ip := p.Pkg("interp"); ip != nil {
+		checkHandlersGetHandlerCtx(p, r, ip, "interp", "R28o")
+	}
+	r.Rule("R28p", "a fixed-size table is indexed by a value that can exceed it only under a test that bounds the value from above", 0)
+	{
+		nArr := 0
+		for _, rel := range []string{"interp", "expand", "pattern", "internal"} {
+			if pk := p.Pkg(rel); pk != nil {
+				nArr += checkArrayIndexFits(p, r, pk, rel, "R28p")
+			}
+		}
+		r.Notef("R28p: %d array accesses by an index whose type exceeds the table", nArr)
+	}
+	r.Rule("R28q", "at run time the directory stack is only appended to, or popped under a test that it holds at least two entries: it always holds the current directory", 3)
+	if ip := p.Pkg("interp"); ip != nil {
+		checkDirStackNeverEmptied(p, r, ip, "R28q")
+	}
 	r.Rule("R28h", "a variable's List is replaced only together with its Indexes (a sparse array's index list must stay parallel to its values, or lookups index past it)", 4)
 	r.Rule("R28d", "indexes taken from state that survives a call are guarded against the length of what they index", 2)
 
@@ -2411,6 +2429,14 @@ var c28Controls = []Control{
 		Mutate: ctlReplaceAnywhere("\t\tfor i := 0; i < len(args); {\n\t\t\tif !r.opts[optExpandAliases] {", "\t\tfor i := 0; i < len(cm.Args); {\n\t\t\tif !r.opts[optExpandAliases] {")},
 	{Name: "unclosed-extglob-writes-the-sentinel", Rule: "R28n", WantKey: "regexpNext#writes sl.next()", File: "pattern/pattern.go",
 		Mutate: ctlReplaceAnywhere("\t\t\tif sl.peekNext() != ')' {\n\t\t\t\t// Like Bash, an unmatched \"(\" makes the operator a literal;", "\t\t\tif false {\n\t\t\t\t// Like Bash, an unmatched \"(\" makes the operator a literal;")},
+	{Name: "handler-called-with-the-bare-context", Rule: "R28o", WantKey: "stat#r.statHandler is given a handler context", File: "interp/runner.go",
+		Mutate: ctlReplaceAnywhere("\treturn r.statHandler(r.handlerCtx(ctx, handlerKindStat, todoPos), path, true)\n", "\treturn r.statHandler(ctx, path, true)\n")},
+	{Name: "ascii-table-indexed-by-any-byte", Rule: "R28p", WantKey: "posixOptByFlag#asciiOpts[flag] fits the table", File: "interp/api.go",
+		Mutate: ctlChain(ctlReplaceAnywhere("func (r *Runner) posixOptByFlag(flag byte) *bool {\n", "func (r *Runner) posixOptByFlag(flag byte) *bool {\n\tif asciiOpts[flag] {\n\t\treturn nil\n\t}\n"),
+			ctlAppendDecl("var asciiOpts [128]bool\n")),
+	},
+	{Name: "directory-stack-truncated", Rule: "R28q", WantKey: "builtin#r.dirStack = r.dirStack[:0]", File: "interp/builtin.go",
+		Mutate: ctlReplaceAnywhere("\t\t\tif len(r.dirStack) < 2 {\n\t\t\t\treturn failf(1, \"popd: directory stack empty\\n\")", "\t\t\tif len(args) == 1 && args[0] == \"-c\" {\n\t\t\t\tr.dirStack = r.dirStack[:0]\n\t\t\t\treturn exit\n\t\t\t}\n\t\t\tif len(r.dirStack) < 2 {\n\t\t\t\treturn failf(1, \"popd: directory stack empty\\n\")")},
 	{Name: "shift-accepts-negative-count", Rule: "R28c", WantKey: "builtin#slice r.Params", File: "interp/builtin.go",
 		Mutate: ctlReplace("Runner.builtin", "err == nil && n2 >= 0", "err == nil", 0)},
 	{Name: "classic-test-complex-left-operand", Rule: "R28a", WantKey: "bashTest#x.X", File: "interp/test_classic.go",
